@@ -1,7 +1,8 @@
-/* sigreset [-i] [-f BYTES] prog args... : give the program under test a defined signal environment
+/* sigreset [-i] [-b] [-f BYTES] prog args... : give the program under test a defined signal environment
    whatever the checker itself inherited (a shell running the check in the background passes SIGINT and
    SIGQUIT on as ignored, nohup SIGHUP, ...): every signal gets its default disposition and nothing is
    blocked.  -i: SIGPIPE and SIGXFSZ are ignored instead (the "inherited SIG_IGN" scenarios of C21).
+   -b: SIGINT, SIGTERM, SIGUSR1 and SIGUSR2 are inherited BLOCKED (a parent that blocks them around fork/exec).
    -f BYTES: RLIMIT_FSIZE. */
 #include <signal.h>
 #include <stdio.h>
@@ -12,10 +13,11 @@
 
 int main(int argc, char **argv)
 {
-  int i = 1, ign = 0, s;
+  int i = 1, ign = 0, blk = 0, s;
   sigset_t none;
   while (i < argc && argv[i][0] == '-') {
     if (strcmp(argv[i], "-i") == 0) { ign = 1; i++; }
+    else if (strcmp(argv[i], "-b") == 0) { blk = 1; i++; }
     else if (strcmp(argv[i], "-f") == 0 && i + 1 < argc) {
       struct rlimit rl;
       rl.rlim_cur = rl.rlim_max = (rlim_t)strtoull(argv[i + 1], NULL, 10);
@@ -29,6 +31,7 @@ int main(int argc, char **argv)
     if (s != SIGKILL && s != SIGSTOP) signal(s, SIG_DFL);
   if (ign) { signal(SIGPIPE, SIG_IGN); signal(SIGXFSZ, SIG_IGN); }
   sigemptyset(&none);
+  if (blk) { sigaddset(&none, SIGINT); sigaddset(&none, SIGTERM); sigaddset(&none, SIGUSR1); sigaddset(&none, SIGUSR2); }
   sigprocmask(SIG_SETMASK, &none, NULL);
   execv(argv[i], argv + i);
   perror(argv[i]);
